@@ -237,6 +237,53 @@ theorem after_trigger_refusals (s : W) (ht : s.terminated = true) :
     | streamDone i c' k t' hc' hp' => rw [hc] at hc'; cases hc'; rw [hp] at hp'; cases hp'
     | wsDone i c' hc' hp' => rw [hc] at hc'; cases hc'; rw [hp] at hp'; cases hp'
 
+/-! ### a keep-alive connection is not recycled once `terminated` is set -/
+
+/-- **the model's decision when a response has been delivered is the code's `_maybe_recycle` guard**
+    (`HC.Extracted.Guards.h11Recycle`, regenerated from `protocol/h11.py` on every run) evaluated where the model takes the
+    step: the protocol is not closed and both h11 sides are DONE (a complete keep-alive exchange).  The connection goes
+    back to idle iff the guard holds; otherwise it is closed.  A guard that consults anything but `context.terminated`
+    (e.g. `context.terminate`, which only `max_requests` sets) is not translated by the extractor, and one that is
+    translated differently breaks this proof -/
+theorem finish_follows_recycle_guard (s s' : W) (i : Nat) (hs : step s (.finish i) = some s') :
+    s'.conns = (if Extracted.Guards.h11Recycle false s.terminated true true then s.setPhase i .idle else s.dropConn i) := by
+  cases step_rel s s' _ hs with
+  | finish i c due hc hp hd => cases ht : s.terminated <;> simp [Extracted.Guards.h11Recycle]
+
+/-- the guard itself: recycling needs `terminated` to be unset, whatever the other three atoms are -/
+theorem recycle_guard_needs_not_terminated (closed ourDone theirDone : Bool) :
+    Extracted.Guards.h11Recycle closed true ourDone theirDone = false := by
+  cases closed <;> cases ourDone <;> cases theirDone <;> rfl
+
+/-- **once `terminated` is set, the connection whose request finishes is closed — it is not there to take the request
+    that was pipelined behind it (or that arrives later), no application instance is started for such a request, and
+    this holds after every further operation list** (both trigger sources: `terminated` is set by the exit path of
+    `worker_serve` whether `shutdown_trigger` returned or `context.terminate` was set by `mark_request`) -/
+theorem not_recycled_after_trigger (s s' : W) (i : Nat) (ht : s.terminated = true) (hs : step s (.finish i) = some s') :
+    s'.findConn i = none ∧ s'.terminated = true ∧ s'.g.scopes = s.g.scopes ∧ (∀ rem, step s' (.request i rem) = none) := by
+  cases step_rel s s' _ hs with
+  | finish i c due hc hp hd =>
+    refine ⟨?_, ht, rfl, ?_⟩
+    · simp only [ht, if_true, W.findConn, W.dropConn]
+      apply List.find?_eq_none.mpr
+      intro x hx
+      simp only [List.mem_filter, bne_iff_ne, ne_eq] at hx
+      simpa using hx.2
+    · intro rem
+      simp only [step, ht]
+      split <;> simp
+
+-- non-vacuity: two requests pipelined on one connection, the trigger while the first is in progress: the first is
+-- delivered, the connection is closed, the second is never enabled, one application instance in all, `worker_serve`
+-- returns at once (nothing left to wait for) — and without the trigger the same connection serves both
+example : (run (W.init .asyncio cfg0 f18Script 10)
+    [.app, .srv, .app, .srv, .connect .h1, .request 0 (some 2), .trigger, .srv, .tick 2, .finish 0]).map
+    (fun s => decide (s.conns = [] ∧ s.hist.delivered = [(0, 2)] ∧ s.g.scopes = 1 ∧ (step s (.request 0 (some 0))).isNone = true)) =
+    some true := by decide
+example : (run (W.init .asyncio cfg0 f18Script 10)
+    [.app, .srv, .app, .srv, .connect .h1, .request 0 (some 2), .tick 2, .finish 0, .request 0 (some 0), .finish 0]).map
+    (fun s => decide (s.conns.map (·.phase) = [.idle] ∧ s.hist.delivered = [(0, 2), (0, 2)] ∧ s.g.scopes = 2)) = some true := by decide
+
 /-! ### requests that finish within the grace period are delivered -/
 
 /-- **a handler is cancelled only when the grace period is over, and a cancelled request was not due before that
